@@ -135,6 +135,11 @@ func (dm *DMap) lookupOnThisNode(hkey uint64, key string) *version {
 		}
 		return dm.valueToVersion(nil)
 	}
+	if isKeyExpired(value.TTL()) {
+		// An expired entry that has not been evicted yet is not a copy of the key
+		// anymore, exactly as on the previous owners and on the replicas (getOnFragment).
+		return dm.valueToVersion(nil)
+	}
 	// We found the key
 	//
 	// LRU and MaxIdleDuration eviction policies are only valid on
